@@ -127,7 +127,7 @@ def merge_traces(paths, out):
     return n
 
 
-def features_for(v, events, resets):
+def features_for(v, events, resets, bytrace):
     rs = resets.get(v["trace"], {})
     e = events.get((v["trace"], v["index"]), {})
     f = {k: rs.get(k) for k in ("fam", "ctor", "abs", "hashfn", "fb", "np", "leaderless", "pk", "static", "dyn") if k in rs}
@@ -135,7 +135,7 @@ def features_for(v, events, resets):
         if k not in ("t", "i", "ev"):
             f[k] = val
     if rs.get("fam") == "prod":
-        f["events"] = [x for (t, i), x in sorted(events.items()) if t == v["trace"]][:30]
+        f["events"] = bytrace.get(v["trace"], [])[:30]
     return f
 
 
@@ -191,13 +191,17 @@ def run(ctx):
 
     viols = []
     if allv:
-        events, resets = {}, {}
+        events, resets, bytrace = {}, {}, {}
+        need = {v["trace"] for v in allv}
         for e in vlib.read_ndjson(trace):
+            if e["t"] not in need:
+                continue
             if e["ev"] == "reset":
                 resets[e["t"]] = e
             events[(e["t"], e["i"])] = e
+            bytrace.setdefault(e["t"], []).append(e)
         for v in allv:
-            v["features"] = features_for(v, events, resets)
+            v["features"] = features_for(v, events, resets, bytrace)
             viols.append(v)
     byclause = {}
     for v in viols:
